@@ -59,7 +59,7 @@ R.model("ThreadingApplication", fields={"_recv_msg_queue": "Queue", "_resp_msg_q
                                         "_resp_queue_consumer": "StoppableThread"})
 R.model("Node", fields={
     "_busy_lock": "Lock", "_half_ready_connections": "Dict[str,PeerConnection]", "_started": "bool",
-    "_stopping": "bool", "_peer_routes": "Dict[str,Dict[Any,List[Peer]]]",
+    "_stopping": "bool", "_peer_routes": "Dict[str,Dict[Any:routekey,List[Peer]]]",
     "_app_waiting_answer": "Dict[str,Application]", "_peer_waiting_answer": "Dict[str,Dict[int,float]]",
     "_origin_waiting_answer": "Dict[str,Tuple[Opt[bytes],float]]", "_sent_answers": "Dict[Opt[bytes],Deque[int]]",
     "origin_host": "str", "realm_name": "str", "state_id": "int", "vendor_id": "int", "product_name": "str",
